@@ -33,6 +33,14 @@ Round 3: the monitor is configuration-blind -- a Python run on the fast_mode pat
 CoreRuntime::step(n) calls arrive as the same kind of instruction-by-instruction records and are judged by the same
 rules.  For Rust, requests that were co-candidates of a delivery and are still pending after its RETI (which clears
 exactly the served status bit) keep their bounded-response obligation.
+
+Round 4: handler exit kind.  A handler may end with the RESET instruction (firmware restart through a vector; ISR is
+cleared, IMR/S/F/registers are kept, no RETI will ever match the entry): the monitor drops its frames and applies the
+ordinary main-program obligations from then on -- an enabled pending request raised later must be taken within BOUND
+boundaries (symptoms carry the suffix "after a handler ended with RESET instead of RETI").  A handler may also fall
+into HALT before it returns or never return: nothing is required while it is active.  Timer liveness outside handlers:
+a timer that is overdue by the model's own cycle counter at the start of an ordinary step expires in that step
+(not-lost).
 """
 
 from __future__ import annotations
@@ -71,12 +79,20 @@ class Monitor:
         self.masked_pending_run = 0
         self.max_masked_pending = 0
         self.wakes = 0
-        self.lo = R.STACK_TOP - R.STACK_WINDOW
+        self.lo = R.STACK_TOP - R.stack_window(sc)
         self.kbirq_off = sc.get("kbirq") is False
         if self.kbirq_off:
             self.labels.add("kbirq-disabled")
         if any(sc.get(f) for f in ("bp0", "px0", "py0")):
             self.labels.add("imem-base-nonzero")
+        # handler exit kind (round 4): a handler may end with RESET (firmware restart), fall into HALT before it
+        # returns, or never return at all
+        self.hexit = str(sc["prog"].get("hexit") or "reti")
+        self.labels.add("handler-exit:" + self.hexit)
+        self.stuck_reported = 0                # timers already reported as overdue-but-not-expiring (once per run)
+        self.reset_in_handler = False          # a RESET instruction was executed while a handler was active
+        self.reset_targets = (R.MAIN, R.HANDLER)   # contents of the reset vector (0xFFFFD) / of the vector at 0xFFFFA
+        self.periods = {0x01: int(sc.get("mti", 0) or 0), 0x02: int(sc.get("sti", 0) or 0)}
 
     # ------------------------------------------------------------------ helpers
     def ctx(self, B: Dict[str, Any]) -> str:
@@ -89,6 +105,9 @@ class Monitor:
 
     def _stk(self, obs: Dict[str, Any]) -> bytes:
         return bytes.fromhex(obs["stk"])
+
+    def after_reset(self) -> str:
+        return " after a handler ended with RESET instead of RETI" if self.reset_in_handler else ""
 
     # ------------------------------------------------------------------ host events (P -> B)
     def events(self, k: int, P: Dict[str, Any], B: Dict[str, Any], kinds: List[str]) -> None:
@@ -124,6 +143,7 @@ class Monitor:
             return
         isr_writer = False
         reti_frame: Optional[Dict[str, Any]] = None
+        in_handler0 = bool(self.frames)        # a handler is active at the start of this step
         off_mode = B["pw"] != 0 and (self.lp == "OFF" or B["pw"] == 2)
 
         # ---------------- low power at the start of the step
@@ -194,6 +214,10 @@ class Monitor:
                        f"step {k}: IMR={imr_at:#04x} ISR={isr_at:#04x} model-source={src}")
             # (b) frame
             bad = []
+            if cur["pc"] is None:
+                # delivery right after a RESET instruction (Rust order): the restart address is the pushed resume PC
+                check_reset_target(fr["pc"])
+                cur["pc"] = fr["pc"]
             if fr["pc"] != cur["pc"]:
                 bad.append("PC")
             if cur["f"] is not None and fr["f"] != cur["f"]:
@@ -230,6 +254,11 @@ class Monitor:
             cur["pc"] = self.vector
             return True
 
+        def check_reset_target(pc: int) -> None:
+            if pc not in self.reset_targets:
+                self.v("state", ctx, "RESET did not continue at the target of the reset vector",
+                       f"step {k}: PC after RESET={pc:#x}; reset vector -> {R.MAIN:#x} (vector at 0xFFFFA -> {R.HANDLER:#x})")
+
         def execute() -> bool:
             nonlocal executed, isr_writer, reti_frame
             m = self.meta.get(cur["pc"])
@@ -250,6 +279,22 @@ class Monitor:
                 cur["pc"], cur["f"], cur["imr"] = pre["pc"], pre["f"], pre["imr"]
                 cur["s"] += 5
                 self.labels.add("reti")
+                return True
+            if kind == "RESET":
+                # Firmware restart.  Documented by both models (eval_intrinsic_reset docstring; llama/eval.rs
+                # power_on_reset): ISR is cleared, IMR / S / F / the CPU registers are retained, execution continues
+                # at a vector target (the models name different vectors: read from the observation).  Whatever
+                # handler was active is over: no RETI will ever match its frame.
+                if self.frames:
+                    self.reset_in_handler = True
+                    self.labels.add("reset-in-handler")
+                    if len(self.frames) > 1:
+                        self.labels.add("reset-in-nested-handler")
+                else:
+                    self.labels.add("reset-outside-handler")
+                del self.frames[:]
+                cur["pc"] = None
+                isr_writer = True
                 return True
             cur["pc"] = m["next"]
             if m["imr"] is not None:
@@ -292,6 +337,9 @@ class Monitor:
                        f"step {k}: ISR {B['isr']:#04x}->{A['isr']:#04x} power {B['pw']}->{A['pw']} executed={e}")
 
         # ---------------- compare the prediction with the observation
+        if cur["pc"] is None:
+            check_reset_target(A["pc"] & 0xFFFFF)
+            cur["pc"] = A["pc"] & 0xFFFFF
         bad = []
         if A["pc"] & 0xFFFFF != cur["pc"]:
             bad.append("PC")
@@ -383,6 +431,27 @@ class Monitor:
                            + (" (both timers expired in this step)" if fired == 0x03 else ""),
                            f"step {k}: next_mti {B['nm']}->{A['nm']} next_sti {B['ns']}->{A['ns']} cycles "
                            f"{B['cyc']}->{A['cyc']} ISR {B['isr']:#04x}->{A['isr']:#04x} IMR={A['imr']:#04x} delivered={d}")
+        # timers keep running outside handlers: a timer whose own expiry target has already been reached by the model's
+        # own cycle counter at the start of an ordinary step (no handler active before or after, running, one
+        # instruction executed, no delivery) expires in that step -- both step loops tick the timers once per
+        # executed instruction unless a handler is active (Python before the instruction, Rust after it).  Typical
+        # non-trivial instance: the first step after a RETI (the timers stand still while a handler runs).
+        if not in_handler0 and not self.frames and e == 1 and d == 0 and B["pw"] == 0 and A["pw"] == 0:
+            stuck = 0
+            for bit, key in ((0x01, "nm"), (0x02, "ns")):
+                if self.periods[bit] > 0 and B[key] > 0 and B["cyc"] >= B[key]:
+                    self.labels.add("timer-overdue-at-step-start")
+                    if A[key] == B[key]:
+                        stuck |= bit
+            stuck &= ~self.stuck_reported
+            self.stuck_reported |= stuck
+            if stuck:
+                self.v("not-lost", ctx,
+                       f"timer {_names(stuck)} is overdue by the model's own cycle counter but did not expire in a step "
+                       "outside any handler" + self.after_reset(),
+                       f"step {k}: cycles {B['cyc']}->{A['cyc']} next_mti {B['nm']}->{A['nm']} next_sti {B['ns']}->{A['ns']} "
+                       f"ISR {B['isr']:#04x}->{A['isr']:#04x} IMR={A['imr']:#04x} model in-interrupt={B['inint']}->{A['inint']} "
+                       f"instr={executed['kind'] if executed else None}")
         for bit in (1, 2, 4, 8):
             if rose & bit and not (fw_set & bit) and not (served & bit):
                 self.req.setdefault(bit, [0, bool(bypassed & bit)])
@@ -424,7 +493,7 @@ class Monitor:
 
         # ---------------- bounded response for enabled pending requests
         elig = 0
-        if B["pw"] != 2 and not off_mode and ctx in ("main", "halt") and (B["imr"] & 0x80):
+        if B["pw"] != 2 and not off_mode and ctx in ("main", "halt") and not in_handler0 and (B["imr"] & 0x80):
             elig = B["imr"] & B["isr"] & 0x0F
         for bit in list(self.req):
             if delivered_here:
@@ -434,7 +503,7 @@ class Monitor:
                 self.req[bit][0] += 1
                 if self.req[bit][0] >= BOUND:
                     why = (" after a delivery for another source intervened while it was masked"
-                           if self.req[bit][1] else "")
+                           if self.req[bit][1] else "") + self.after_reset()
                     self.v("not-lost", ctx, f"enabled pending request {_names(bit)} not taken within {BOUND} step boundaries" + why,
                            f"step {k}: IMR={B['imr']:#04x} ISR={B['isr']:#04x} model pending-flag={B['pend']} in-interrupt={B['inint']}")
                     self.req.pop(bit, None)
